@@ -77,12 +77,13 @@ def eval_multi_line(lit):
         return lines[0]
     first, middle, last = lines[0], lines[1:-1], lines[-1]
     rest = list(middle)
-    if last.strip(" ") != "":
+    if last.strip(" \t") != "":
         rest.append(last)
         last_dropped = False
     else:
         last_dropped = True
-    indents = [len(ln) - len(ln.lstrip(" ")) for ln in rest]
+    # "whitespace characters before the first non-whitespace character in a line": blanks and tabs
+    indents = [len(ln) - len(ln.lstrip(" \t")) for ln in rest]
     m = min(indents) if indents else 0
     rest = [ln[m:] for ln in rest]
     parts = []
